@@ -321,6 +321,62 @@ def evaluate(mod, cases):
     return impl, model, mism, fails
 
 
+_POOL_MOD = None
+
+
+def explore(mod, cases):
+    """impl + model + oracle on a list of cases, reduced to what the verdict and the evidence need"""
+    impl, model, mism, fails = evaluate(mod, cases)
+    nontriv = set()
+    for c, o in zip(cases, impl):
+        try:
+            if mod.nontrivial(c, o):
+                nontriv.add(case_hash(c))
+        except Exception:
+            pass
+    view = (lambda c, o: mod.impl_view(c, o)) if hasattr(mod, "impl_view") else (lambda c, o: o)
+    samples = [{"case": cases[j], "impl": view(cases[j], impl[j]), "model": model[j]}
+               for j in range(max(0, len(cases) - 3), len(cases))]
+    # keep one failure per cause signature and case (bounded), all counts
+    kept, seen = [], {}
+    for i, f in fails:
+        n = seen.get(f.get("sig"), 0)
+        if n < 3:
+            kept.append((cases[i], f))
+        seen[f.get("sig")] = n + 1
+    return {"n": len(cases), "n_mism": len(mism), "n_fails": len(fails),
+            "mism": [(cases[i], model[i], view(cases[i], impl[i])) for i in mism[:2]],
+            "fails": kept, "nontriv": nontriv, "samples": samples,
+            "stats": mod.stats(cases, impl) if hasattr(mod, "stats") else {}}
+
+
+def _explore_chunk(args):
+    seed, tier, k = args
+    mod = _POOL_MOD
+    rng = random.Random(seed * 1000003 + 17 + 104729 * k)
+    return explore(mod, mod.generate(rng, tier))
+
+
+def merge_stats(a, b):
+    if isinstance(a, dict) and isinstance(b, dict):
+        out = dict(a)
+        for k, v in b.items():
+            out[k] = merge_stats(a[k], v) if k in a else v
+        return out
+    if isinstance(a, bool) or isinstance(b, bool):
+        return a or b
+    if isinstance(a, (int, float)) and isinstance(b, (int, float)):
+        return a + b
+    return a
+
+
+def merge_results(a, b):
+    return {"n": a["n"] + b["n"], "n_mism": a["n_mism"] + b["n_mism"], "n_fails": a["n_fails"] + b["n_fails"],
+            "mism": (a["mism"] + b["mism"])[:4], "fails": a["fails"] + b["fails"],
+            "nontriv": a["nontriv"] | b["nontriv"], "samples": a["samples"],
+            "stats": merge_stats(a["stats"], b["stats"])}
+
+
 def run_check(prop_id, tier, seed, replay=None):
     t0 = time.time()
     mod = load_prop(prop_id)
@@ -355,33 +411,41 @@ def run_check(prop_id, tier, seed, replay=None):
             proof_ok = False
 
     # 2. + 3. correspondence and oracle
-    rng = random.Random(seed * 1000003 + 17)
     corpus = mod.corpus() if hasattr(mod, "corpus") else []
-    cases = corpus + mod.generate(rng, tier)
-    impl, model, mism, fails = evaluate(mod, cases)
+    jobs = int(os.environ.get("VERIF_JOBS", "0") or 0) or (min(14, os.cpu_count() or 1) if tier == "thorough" else 1)
+    res = explore(mod, corpus + mod.generate(random.Random(seed * 1000003 + 17), tier))
+    if jobs > 1:
+        global _POOL_MOD
+        _POOL_MOD = mod
+        import multiprocessing
+        ctx = multiprocessing.get_context("fork")
+        with ctx.Pool(jobs - 1) as pool:
+            for r in pool.imap_unordered(_explore_chunk, [(seed, tier, k) for k in range(1, jobs)]):
+                res = merge_results(res, r)
+    n_cases, mism, fails = res["n"], res["mism"], res["fails"]
 
     known = load_known(prop_id)
     known_hit = {}
     unlisted = []
-    for i, f in fails:
+    for case, f in fails:
         k = next((e for e in known if e["signature"] == f.get("sig")), None)
         if k:
-            known_hit.setdefault(k["id"], (k, i, f))
+            known_hit.setdefault(k["id"], (k, case, f))
         else:
-            unlisted.append((i, f))
+            unlisted.append((case, f))
 
     status = 0
     lines_out = []
     widened = 0
     if unlisted:
-        i, f = unlisted[0]
+        case0, f = unlisted[0]
         shr = getattr(mod, "shrink", None)
-        case = cases[i]
+        case = case0
         if shr:
             try:
-                case = shr(case, f)
+                case = shr(case0, f)
             except Exception:
-                case = cases[i]
+                case = case0
         path = write_replay(prop_id, {"property": prop_id, "kind": "failing-input", "seed": seed,
                                       "case": case, "failure": f,
                                       "impl_obs": _safe_impl(mod, case),
@@ -393,7 +457,7 @@ def run_check(prop_id, tier, seed, replay=None):
         found = None
         for k in range(1, 6 if tier == "quick" else 16):
             r2 = random.Random(seed * 1000003 + 17 + 7919 * k)
-            extra = mod.generate(r2, tier)
+            extra = mod.generate(r2, "quick")
             widened += len(extra)
             for c in extra:
                 o = _safe_impl(mod, c)
@@ -417,39 +481,26 @@ def run_check(prop_id, tier, seed, replay=None):
                     "theorems_with_unaccepted_axioms_or_errors": bad_axioms,
                     "forbidden_constructs": hits, "leanchecker": checker_note}
             if mism:
-                i = mism[0]
+                case, mview, iview = mism[0]
                 if hasattr(mod, "first_diff"):
                     try:
-                        payload["first_difference"] = mod.first_diff(
-                            cases[i], model[i], mod.impl_view(cases[i], impl[i]) if hasattr(mod, "impl_view") else impl[i])
+                        payload["first_difference"] = mod.first_diff(case, mview, iview)
                     except Exception:
                         pass
                 payload["broken_correspondence"] = {
                     "stream": "%s model vs implementation" % prop_id,
                     "theorems_no_longer_tied_to_the_code": sum((theorems_in(f) for f in mod.LEAN_PROPS), []),
-                    "mismatching_cases": len(mism), "first_case": cases[i],
-                    "impl_obs": mod.impl_view(cases[i], impl[i]) if hasattr(mod, "impl_view") else impl[i],
-                    "model_obs": model[i]}
+                    "mismatching_cases": res["n_mism"], "first_case": case,
+                    "impl_obs": iview, "model_obs": mview}
             path = write_replay(prop_id, payload)
             lines_out.append("VIOLATION property=%s replay=%s no-failing-input-found" % (prop_id, path))
         status = 1
-    for kid, (k, i, f) in sorted(known_hit.items()):
+    for kid, (k, case, f) in sorted(known_hit.items()):
         lines_out.append("KNOWN-FINDING: property=%s %s [%s]" % (prop_id, k["what"], kid))
 
-    # evidence
-    nontriv = set()
-    for c, o in zip(cases, impl):
-        try:
-            if mod.nontrivial(c, o):
-                nontriv.add(case_hash(c))
-        except Exception:
-            pass
-    samples = []
-    for i in range(min(3, len(cases))):
-        j = (len(corpus) + i) if len(cases) > len(corpus) + i else i
-        samples.append({"case": cases[j], "impl": mod.impl_view(cases[j], impl[j]) if hasattr(mod, "impl_view") else impl[j],
-                        "model": model[j]})
-    stats = mod.stats(cases, impl) if hasattr(mod, "stats") else {}
+    nontriv = res["nontriv"]
+    samples = res["samples"][:3]
+    stats = res["stats"]
     ev = {
         "property_id": prop_id, "tier": tier, "seed": seed, "level": "proof",
         "coverage": {
@@ -459,12 +510,13 @@ def run_check(prop_id, tier, seed, replay=None):
             "trusted_base": TRUSTED_BASE + list(getattr(mod, "TRUSTED_EXTRA", [])),
             "theorems": {n: a for n, a in audit.items()},
             "leanchecker": checker_note,
-            "evaluations": len(cases) + widened,
+            "evaluations": n_cases + widened,
+            "parallel_jobs": jobs,
             "distinct_nontrivial": len(nontriv),
             "rule": getattr(mod, "RULE", ""),
-            "traces_validated_against_impl": len(cases) - len(mism),
-            "correspondence_mismatches": len(mism),
-            "oracle_failures": len(fails),
+            "traces_validated_against_impl": n_cases - res["n_mism"],
+            "correspondence_mismatches": res["n_mism"],
+            "oracle_failures": res["n_fails"],
             "known_findings_reconfirmed": sorted(known_hit),
             "corpus_cases": len(corpus),
             "samples": samples,
@@ -479,7 +531,7 @@ def run_check(prop_id, tier, seed, replay=None):
     for l in lines_out:
         print(l)
     log("%s tier=%s seed=%d: %d cases, %d mismatches, %d oracle failures (%d known), obligations %d/%d, %.1fs"
-        % (prop_id, tier, seed, len(cases), len(mism), len(fails), len(known_hit), discharged, obligations,
+        % (prop_id, tier, seed, n_cases, res["n_mism"], res["n_fails"], len(known_hit), discharged, obligations,
            time.time() - t0))
     return status
 
